@@ -323,6 +323,11 @@ def add_item(rng, b, k, sh, depth, max_items=6):
     if k == "config":
         for _ in range(rng.randint(1, 2)):
             b.items.append(("config", rng.choice(["MS_ERRORFILE", "proj_lib", "CGI_CONTEXT_URL"]), rstring(rng, False)))
+        if rng.random() < .4:
+            # the settings the schema enumerates, values in any letter case
+            kk, vv = rng.choice([("ON_MISSING_DATA", ["FAIL", "ignore", "Log"]), ("MS_NONSQUARE", ["YES", "no", "Yes"])])
+            if not any(it[0] == "config" and it[1] == kk for it in b.items):
+                b.items.append(("config", kk, rng.choice(vv)))
         return
     if k == "projection":
         if rng.random() < .2:
